@@ -41,7 +41,7 @@ RULE = ("cases = (1-2 environment / learner / evaluator doubles with generated p
         "subset of their product as triples (or the full product via the three-list constructor), per triple a generated "
         "list of 0..5 rows (thorough 0..10) over 1-4 field names from a pool of plain, unicode, quoted, newline and "
         "non-string names with ragged key sets, values = None/bool/int/float (NaN, inf, ties at the 5th decimal, "
-        "integer-valued, many decimals)/str (unicode, newlines, quotes, NUL)/nested list-tuple-dict/reward objects, "
+        "integer-valued, many decimals)/str (unicode, newlines, quotes, NUL, lone surrogates)/nested list-tuple-dict/reward objects, "
         "sink kind none/plain/.gz, restored second run or not, optional description); sub-check 'shapes' enumerates "
         "completely all columns of 1..3 rows over 10 value shapes. Non-trivial = some triple has ragged key sets or a "
         "nested / non-finite / non-ASCII-or-control-character value; distinct = distinct canonical JSON of the case")
@@ -53,7 +53,7 @@ ASSUMPTIONS = [
     "a field named 'rewards' may come back as a list or as a tuple (coba exempts this column from the tuple conversion because SequentialCB stores reward vectors / reward objects there)",
     "ids are assigned in order of first appearance in the triple list (what MakeTasks documents and restoring relies on)",
     "reward objects (L1Reward, BinaryReward, HammingReward, DiscreteReward) inside rows are only compared across the routes",
-    "values that json cannot serialise (sets, bytes, arbitrary objects), lone surrogates and learner params that are not dictionaries are not generated",
+    "values that json cannot serialise (sets, bytes, arbitrary objects) and learner params that are not dictionaries are not generated; lone surrogates are generated in string values, not in field names",
     "single-process, in-process execution only (multi-process and crash/resume are C01-C03)",
 ]
 
@@ -94,6 +94,10 @@ def build(case):
     # Experiment(triples, None) would be parsed as (environments, learners): pass the description only when there is one
     return Experiment(triples) if descr is None else Experiment(triples, descr)
 
+def ascii_text(x):
+    """text of an exception / log line made printable (generated strings may hold lone surrogates)"""
+    return str(x).encode("ascii", "backslashreplace").decode("ascii")
+
 def do_run(case, path, logs, what):
     sink = ListSink()
     CobaContext.search_paths = []
@@ -102,9 +106,9 @@ def do_run(case, path, logs, what):
     try:
         return exp.run(path, quiet=True, processes=1, maxchunksperchild=0, maxtasksperchunk=0)
     except Exception as e:
-        raise Violation(f"[{what}] Experiment.run raised {type(e).__name__}: {e}") from e
+        raise Violation(f"[{what}] Experiment.run raised {type(e).__name__}: {ascii_text(e)}") from e
     finally:
-        logs.extend(f"[{what}] {str(m)[-700:]}" for m in sink.items)
+        logs.extend(f"[{what}] {ascii_text(m)[-700:]}" for m in sink.items)
 
 # ------------------------------------------------------------------------------------------------ model
 def ids_of(case):
@@ -279,7 +283,7 @@ def run(case):
         try:
             r_load = Result.from_file(path)
         except Exception as e:
-            raise Violation(f"Result.from_file raised {type(e).__name__}: {e}") from e
+            raise Violation(f"Result.from_file raised {type(e).__name__}: {ascii_text(e)}") from e
         d_mem, d_file, d_load = dump(r_mem), dump(r_file), dump(r_load)
         same_results("Result(no file) and Result(file)", d_mem, d_file, logs)
         same_results("Result(file) and Result.from_file(file)", d_file, d_load, logs)
@@ -299,7 +303,10 @@ FLOATS = [NAN, INF, -INF, -0.0, 0.0, 3.0, -2.0, 1e15, 1e300, -1e22, 2.0 ** 60, 0
           0.12345678901234, 7.00001, 7.000001]
 BIGINTS = [10 ** 6, -2 ** 31, 2 ** 53 + 1, 2 ** 70, -10 ** 30]
 
-strings = st.one_of(st.sampled_from(NASTY), st.text(max_size=6))
+# lone surrogates: a file name decoded with surrogateescape, a truncated emoji, high/low alone, reversed pair, inside text
+SURROGATES = ["\ud83d", "\udce9", "\ud800", "\udfff", "/data/caf\udce9.csv", "a\ud800b", "\udfff\ud800", "x\ud83d", "\udc80\n", "\u00e9\udcff\u65e5"]
+strings = st.one_of(st.sampled_from(NASTY), st.text(max_size=6), st.sampled_from(SURROGATES),
+                    st.tuples(st.text(max_size=3), st.sampled_from(SURROGATES[:4]), st.text(max_size=3)).map("".join))
 floats = st.one_of(st.sampled_from(FLOATS), st.floats(-1e6, 1e6, allow_nan=False), st.floats(-1, 1),
                    st.integers(-10 ** 8, 10 ** 8).map(lambda k: k / 1e6))
 ints = st.one_of(st.integers(-5, 5), st.sampled_from(BIGINTS))
@@ -398,6 +405,9 @@ def _walk(v):
 def _odd_text(s):
     return any(ord(c) > 126 or ord(c) < 32 for c in s)
 
+def _has_surrogate(s):
+    return any(0xD800 <= ord(c) <= 0xDFFF for c in s)
+
 def features(case):
     f = set()
     for rows in case["rows"]:
@@ -426,9 +436,11 @@ def features(case):
                 elif not v.is_integer(): f.add("float-with-decimals")
                 else: f.add("integer-valued-float")
             if isinstance(v, str) and _odd_text(v): f.add("odd-string")
+            if isinstance(v, str) and _has_surrogate(v): f.add("lone-surrogate")
     if any(isinstance(v, dict) and not is_rwd(v) for v in allvals + pvals): f.add("dict-value")
     if any(p for plist in (case["envs"], case["lrns"], case["vals"]) for p in plist): f.add("params")
     if any(not isinstance(k, str) for plist in (case["envs"], case["lrns"], case["vals"]) for p in plist for k in p): f.add("non-str-param-key")
+    if isinstance(case.get("description"), str) and _has_surrogate(case["description"]): f.add("lone-surrogate")
     if len(case["triples"]) > 1: f.add("several-triples")
     return f
 
